@@ -30,7 +30,6 @@ type c09Case struct {
 	Cold bool `json:"cold,omitempty"`
 }
 
-
 func c09TraceConfig(k int) *TraceConfiguration {
 	// The tracer must not synchronise the goroutines with each other (an atomic counter or a mutex in here creates
 	// happens-before edges that hide races in the code under test from the detector): it does nothing at all.
